@@ -1,0 +1,67 @@
+//go:build verif
+
+package ics20
+
+// Contracts for the deductive checker in /verif (comment-only; compiled only with -tags verif).
+// C16, query side (sub-agent ACsub2): `allowance(grantee, granter)` of the ICS-20 precompile reports exactly the allocations of
+// the TransferAuthorization stored in x/authz under (grantee, granter, MsgTransfer type URL) - what the native authz `Grants`
+// query shows for that key - and the empty list when there is no live grant. State model: the grant store view of
+// /verif/specs/c04/62_authz.spec (g_kind, g_exp) and 65_allocations.spec (g_ta[key] = the stored TransferAuthorization).
+// Loaded together with tags c04 / c04ap (glob_ics20_TransferMsgURL, const_auth_url axiom, authorization.CheckAllowanceArgs).
+
+/*@
+alias CmnAllocs []github.com/haqq-network/haqq/precompiles/common.ICS20Allocation
+alias CmnAlloc github.com/haqq-network/haqq/precompiles/common.ICS20Allocation
+alias CmnCoin github.com/haqq-network/haqq/precompiles/common.Coin
+alias IbcAlloc github.com/cosmos/ibc-go/v7/modules/apps/transfer/types.Allocation
+
+// ASSUMPTION A-transfer-url: the package variable TransferMsgURL = sdk.MsgTypeURL(&transfertypes.MsgTransfer{}) is the proto
+// message name of MsgTransfer with a leading slash (set once at package initialisation, never assigned afterwards)
+axiom glob_ics20_TransferMsgURL == "/ibc.applications.transfer.v1.MsgTransfer" && glob_ics20_TransferMsgURL != ""
+
+specfunc big_is(p *math/big.Int, n int) bool = p != nil && *p == n
+// one EVM-side coin is the native coin: same denomination, the amount as a (freshly allocated) big integer of the same value
+specfunc coin_conv(o CmnCoin, c Coin) bool = o.Denom == c.Denom && big_is(o.Amount, c.Amount) && fresh(o.Amount)
+// one EVM-side allocation is the native allocation: port, channel and allow list copied, the spend limit coin by coin in the
+// order of the stored (sorted) list
+specfunc alloc_conv(o CmnAlloc, a IbcAlloc) bool = o.SourcePort == a.SourcePort && o.SourceChannel == a.SourceChannel && o.AllowList == a.AllowList
+        && len(o.SpendLimit) == coins_len(a.SpendLimit)
+        && (forall m int :: 0 <= m && m < coins_len(a.SpendLimit) ==> coin_conv(o.SpendLimit[m], coins_at(a.SpendLimit, m)))
+
+// allowance(grantee, granter): two arguments (the message type URL is appended by the method itself, so a third argument is
+// refused), both non-zero addresses. One read of the grant store with exactly the key (grantee, granter, MsgTransfer URL) in the
+// caller's context on the precompile's authz keeper; nothing is written (frame: no `modifies`).
+//   no live grant under the key            -> the empty allocation list is packed
+//   a live TransferAuthorization           -> its allocations, element by element, are packed
+//   a live grant of another kind           -> error (cannot happen for grants written through SaveGrant, which derives the key
+//                                             from the authorization's own MsgTypeURL; kept because the code has the branch)
+// The result is exactly the result of the respective Pack call (bytes and error).
+func (Precompile).Allowance
+    params p, ctx, method, input
+    requires wf: method != nil
+    let G1 = dyn(input[0], Address)
+    let G2 = dyn(input[1], Address)
+    let okargs = len(input) == 2 && isdyn(input[0], Address) && G1 != zero_EvmAddr && isdyn(input[1], Address) && G2 != zero_EvmAddr
+    let key = gkey(addr_bytes(G1), addr_bytes(G2), glob_ics20_TransferMsgURL)
+    let live = GLive(g_kind, g_exp, key, ctx)
+    let transfer = g_kind[key] == TransferTag()
+    let A = g_ta[key].Allocations
+    let O = dyn(args[0], CmnAllocs)
+    call GetAuthorization requires named: gte == addr_bytes(dyn(old(input[0]), Address)) && gtr == addr_bytes(dyn(old(input[1]), Address))
+            && url == glob_ics20_TransferMsgURL && url == "/ibc.applications.transfer.v1.MsgTransfer" && kctx == old(ctx) && k == p.AuthzKeeper
+    call Arguments.Pack requires packed: arguments == method.Outputs && len(args) == 1 && isdyn(args[0], CmnAllocs)
+            && ite(old(GLive(g_kind, g_exp, gkey(addr_bytes(dyn(input[0], Address)), addr_bytes(dyn(input[1], Address)), glob_ics20_TransferMsgURL), ctx)),
+                   len(O) == len(old(A)) && (forall k int :: 0 <= k && k < len(old(A)) ==> alloc_conv(O[k], old(A)[k])),
+                   len(O) == 0)
+    ensures refused: !okargs ==> result.1 != nil && len(result.0) == 0
+    ensures other_kind: okargs && live && !transfer ==> result.1 != nil && len(result.0) == 0
+    // (Pack call sites are numbered in the order the engine reaches them: 1 = transfer authorization, 2 = no grant)
+    ensures reported_none: okargs && !live ==> result.0 == ret(Pack, 2, 0) && result.1 == ret(Pack, 2, 1)
+    ensures reported: okargs && live && transfer ==> result.0 == ret(Pack, 1, 0) && result.1 == ret(Pack, 1, 1)
+    loop 1 invariant idx: 0 <= #i && #i <= len(transferAuthz.Allocations) && len(allocs) == len(transferAuthz.Allocations)
+    loop 1 invariant elems: forall k int :: 0 <= k && k < #i ==> alloc_conv(allocs[k], transferAuthz.Allocations[k])
+    loop 2 invariant outer: 0 <= i && i < len(transferAuthz.Allocations) && a == transferAuthz.Allocations[i] && len(allocs) == len(transferAuthz.Allocations)
+    loop 2 invariant outer_elems: forall k int :: 0 <= k && k < i ==> alloc_conv(allocs[k], transferAuthz.Allocations[k])
+    loop 2 invariant idx: 0 <= #i && #i <= coins_len(a.SpendLimit) && len(spendLimit) == coins_len(a.SpendLimit)
+    loop 2 invariant coins: forall m int :: 0 <= m && m < #i ==> coin_conv(spendLimit[m], coins_at(a.SpendLimit, m))
+@*/
